@@ -117,7 +117,11 @@ class DictReal:
 
 class LieselReal:
     def __init__(self, spec, order=None, order_seed=0, iface="liesel", auto_at_creation=True):
-        self.real = c01.Real(spec, order, order_seed)
+        self._init_from(c01.Real(spec, order, order_seed), iface, auto_at_creation)
+
+    def _init_from(self, real, iface, auto_at_creation):
+        self.real = real
+        spec = real.spec
         r = self.real
         # the user's model may have auto_update switched off when the interface is created (the private copy
         # inherits the flag); the interface is gs.LieselInterface or the deprecated, still exported lsl.GooseModel
@@ -146,9 +150,73 @@ class LieselReal:
         return vals, flags
 
 
+class SharedNameReal(c01.Real):
+    """hand-built family in which nodes and DIFFERENT variables share names (separate namespaces, legal):
+
+        node "x" (Value)                    variable "x"    (value node "x_value")
+        node "b" (Value) = value node of variable "beta"    variable "b" (value node "b_value")
+        c = f(x, Var x, Var beta, Var b)    cached
+        w ~ HDist(c)                        strong parameter
+
+    update_state and extract_position resolve a key as a NODE name first: a kernel keyed "x" owns node x, a kernel keyed
+    "b" owns node b (the value of variable beta) - not the variables of the same name."""
+
+    def __init__(self, spec, order=None, order_seed=0):
+        import logging
+        import liesel.model as lsl
+        logging.getLogger("liesel").setLevel(logging.ERROR)
+        self.lsl, self.spec, self.log, self.logging, self.group_fs = lsl, spec, [], False, {}
+        v, f = spec["vals"], spec["fs"]
+
+        def fn(fs):
+            return lambda *a: apply_fs(fs, list(a))
+
+        def dist(fs):
+            class HDist:
+                def __init__(self, *a):
+                    self.vals = list(a)
+
+                def log_prob(self, at):
+                    return apply_fs(fs, self.vals + [at])
+            return HDist
+
+        x = lsl.Value(v[0], _name="x")
+        vx = lsl.Var(v[1], name="x")
+        b = lsl.Value(v[2], _name="b")
+        beta = lsl.Var(b, name="beta")
+        vb = lsl.Var(v[3], name="b")
+        cnode = lsl.Calc(fn(f[0]), x, vx, beta, vb, _name="c")
+        w = lsl.Var(v[4], lsl.Dist(dist(f[1]), cnode), name="w")
+        w.parameter = True
+        self.fsmap = {"c": f[0], "w_log_prob": f[1]}
+        gb = lsl.GraphBuilder(to_float32=False)
+        gb.add(x, vx, beta, vb, cnode, w)
+        self.model = gb.build_model()
+        self._extract(order, order_seed)
+
+    def _fs_of(self, name, d):
+        if name in self.fsmap:
+            return self.fsmap[name]
+        return ["sum"] if name.startswith("_model_") else ["id"]
+
+    def canon_value(self, k):
+        return self.nodes[k].value
+
+
+def shared_spec(rnd):
+    def fs(n):
+        return ["aff", rnd.randint(0, 999), [rnd.randint(1, 9) for _ in range(n)]]
+    return {"custom": "shared", "items": [], "vals": [rnd.randint(-50, 50) for _ in range(5)], "fs": [fs(4), fs(2)]}
+
+
 def make_real(c):
     if c["model"] == "dict":
         return DictReal(c["spec"])
+    if c["spec"].get("custom") == "shared":
+        R = LieselReal.__new__(LieselReal)
+        R._init_from(SharedNameReal(c["spec"], c.get("order"), c.get("order_seed", 0)),
+                     c.get("iface", "liesel"), c.get("auto_at_creation", True))
+        return R
     return LieselReal(c["spec"], c.get("order"), c.get("order_seed", 0), c.get("iface", "liesel"), c.get("auto_at_creation", True))
 
 
@@ -158,6 +226,8 @@ def key_name(R, kd):
     if k >= len(R.order):
         return f"no_such_node_{k}"
     name = R.order[k]
+    if via.startswith("name:"):          # an explicit key string (shared-name family); k is the node it must resolve to
+        return via[5:]
     if via == "var" and name in R.var_of:
         return R.var_of[name]
     return name
@@ -232,20 +302,24 @@ def drive(R, kernels, iters, seed=0):
 
 
 def drive_builder(R, c):
-    """the same scripted (Gibbs) kernels, but configured through EngineBuilder.add_kernel - with user-assigned /
-    default / re-used identifiers - and run by the real jitted Engine; only the state after every iteration is
-    observed (SamplingResults).  c["kernels"] is the CONFIGURED order (the order of add_kernel in the builder
-    under test)."""
+    """the same scripted (Gibbs) kernels, but configured through EngineBuilder - add_kernel with user-assigned / default /
+    re-used identifiers, set_model possibly called more than once around the add_kernel calls (c["history"]; the model
+    that counts is the one set last before build()) - and run by the real jitted Engine; only the state after every
+    iteration is observed (SamplingResults).  c["kernels"] is the CONFIGURED order (the order of add_kernel in the
+    builder under test); R is the model configured at build time."""
     L = lib()
     jnp, gs = L["jnp"], L["gs"]
     EpochConfig, EpochType = L["EpochConfig"], L["EpochType"]
     names = R.order
+    is_dict = isinstance(R, DictReal)
+    stored = [k for k in range(len(names)) if R.kinds[k] != "T"]
 
     def make(kern):
         keys = [names[k] for k, _ in kern["keys"]]
 
         def fn(key, ms):
-            return {names[k]: apply_fs(fs, [ms[names[a]] for a in args])
+            rd = (lambda a: ms[names[a]]) if is_dict else (lambda a: ms[names[a]].value)
+            return {names[k]: apply_fs(fs, [rd(a) for a in args])
                     for (k, _), fs, args in zip(kern["keys"], kern["prop_fs"], kern["prop_args"])}
         return gs.GibbsKernel(keys, fn)
 
@@ -253,39 +327,59 @@ def drive_builder(R, c):
     for o, ident in zip(objs, c["idents"]):
         if ident:
             o.identifier = ident
-    state0 = {n: jnp.asarray(v, dtype=jnp.int32) for n, v in zip(names, R.spec["vals"])}
+    if is_dict:
+        state0 = {n: jnp.asarray(v, dtype=jnp.int32) for n, v in zip(names, R.spec["vals"])}
+    else:
+        state0 = R.state0
+    ifaces = {"new": R.iface}
+    if c.get("spec_old"):
+        # a model under the same node names with other node functions, set first and then replaced
+        ifaces["old"] = make_real({**c, "spec": c["spec_old"], "order": list(R.order)}).iface
+    history = c.get("history") or (["set:new"] + [f"add:{j}" for j in range(len(objs))])
+    keyset = {nm for o in objs for nm in o.position_keys}
 
-    def builder_with(order):
+    def builder_with(hist):
         b = gs.EngineBuilder(seed=c.get("seed", 1), num_chains=c["chains"])
-        b.set_model(R.iface)
+        for op in hist:
+            what, arg = op.split(":")
+            if what == "set":
+                b.set_model(ifaces[arg])
+            else:
+                b.add_kernel(objs[int(arg)])
         b.set_initial_values(state0)
-        for j in order:
-            b.add_kernel(objs[j])
         b.set_epochs([EpochConfig(EpochType.INITIAL_VALUES, 1, 1, None), EpochConfig(EpochType.POSTERIOR, c["T"], 1, None)])
-        b.positions_included = list(names)
+        b.positions_included = [names[k] for k in stored if names[k] not in keyset]
         b.show_progress = False
         return b
 
     if c.get("first_order"):
         # the kernel objects were first used in another builder (in another order): they keep the identifiers
         # that build assigned
-        builder_with(c["first_order"]).build()
-    engine = builder_with(range(len(objs))).build()
+        builder_with(["set:new"] + [f"add:{j}" for j in c["first_order"]]).build()
+    engine = builder_with(history).build()
     engine.sample_all_epochs()
     samples = engine.get_results().get_samples()
     import numpy as np
-    arr = {n: np.asarray(samples[n]) for n in names}
+    arr = {names[k]: np.asarray(samples[names[k]]) for k in stored}
     c["final_idents"] = [o.identifier for o in objs]
-    T1 = arr[names[0]].shape[1]
+    T1 = arr[names[stored[0]]].shape[1]
     out = []
     c["chains_differ"] = None
+
+    def state_at(ch, t):
+        if is_dict:
+            return [int(arr[n][ch, t]) for n in names], [False] * len(names)
+        NodeState = R.real.lsl.NodeState
+        ms = {n: NodeState(int(arr[n][ch, t]) if n in arr else None, False) for n in names}
+        return R.observe_state(ms)
+
     for t in range(1, T1):
-        vals = [int(arr[n][0, t]) for n in names]
+        vals, flags = state_at(0, t)
         for ch in range(1, c["chains"]):
-            other = [int(arr[n][ch, t]) for n in names]
+            other = state_at(ch, t)[0]
             if other != vals and not c["chains_differ"]:
                 c["chains_differ"] = f"iteration {t - 1}: chain 0 {vals}, chain {ch} {other}"
-        step = {"moved": True, "code": 0, "vals": vals, "flags": [False] * len(names)}
+        step = {"moved": True, "code": 0, "vals": vals, "flags": flags}
         out.append({"raised": False, "final_only": True, "steps": [dict(step) for _ in c["kernels"]]})
     return out
 
@@ -293,8 +387,9 @@ def drive_builder(R, c):
 def run_d_case(c):
     if c.get("via") == "builder":
         R = make_real(c)
+        v0, f0 = (list(R.spec["vals"]), [False] * len(R.order)) if c["model"] == "dict" else R.observe_state(R.state0)
         c.update(order=list(R.order), kinds=list(R.kinds), ins=[list(x) for x in R.ins], fs=R.fs,
-                 init={"vals": list(R.spec["vals"]), "flags": [False] * len(R.order)})
+                 init={"vals": v0, "flags": f0})
         c["iters"] = [{"modes": ["accept"] * len(c["kernels"]), "codes": [0] * len(c["kernels"]), "epoch": 0} for _ in range(c["T"])]
         c["its"] = drive_builder(R, c)
         return c
@@ -313,7 +408,7 @@ def run_d_case(c):
 
 
 D_SCENARIOS = ["mixed", "all_reject", "gibbs_only", "mh_only", "natural", "raises", "var_names", "dict", "error_codes", "shared_reads",
-               "var_direct"]
+               "var_direct", "shared_name"]
 
 
 def direct_var_keys(R):
@@ -329,7 +424,34 @@ def direct_var_keys(R):
     return out
 
 
+def gen_shared_kernels(rnd, R):
+    """kernels keyed by the shared names "x" and "b" (they name NODES x and b), optionally further blocks keyed by the
+    unambiguous names x_value / b_value / w; every proposal reads the other blocks and the derived nodes"""
+    pos = R.pos
+    blocks = [[("x", pos["x"])], [("b", pos["b"])]]
+    rnd.shuffle(blocks)
+    extra = [("x_value", pos["x_value"]), ("b_value", pos["b_value"]), ("w", pos["w_value"])]
+    rnd.shuffle(extra)
+    for e in extra[:rnd.randint(0, 2)]:
+        if rnd.random() < 0.5:
+            blocks.append([e])
+        else:
+            rnd.choice(blocks).append(e)
+    stored = [k for k in range(len(R.order)) if R.kinds[k] != "T"]
+    kernels = []
+    for b in blocks:
+        kern = {"kind": rnd.choice(["gibbs", "mh", "errk"]), "keys": [[k, "name:" + nm] for nm, k in b], "prop_fs": [], "prop_args": []}
+        for _ in b:
+            na = rnd.randint(1, 3)
+            kern["prop_fs"].append(["aff", rnd.randint(0, 999), [rnd.randint(1, 9) for _ in range(na)]])
+            kern["prop_args"].append([rnd.choice(stored) for _ in range(na)])
+        kernels.append(kern)
+    return kernels
+
+
 def gen_kernels(rnd, R, scenario, must=None):
+    if scenario == "shared_name":
+        return gen_shared_kernels(rnd, R)
     n = len(R.order)
     settable = [k for k in range(n) if R.kinds[k] == "V"]
     stored = [k for k in range(n) if R.kinds[k] != "T"]
@@ -414,12 +536,18 @@ def make_d_case(rnd, quick, scenario, flavour, trace=False, iface=("liesel", Tru
             c = {"layer": "D", "model": "dict", "spec": spec, "scenario": scenario, "flavour": "dict"}
         else:
             nitems = rnd.randint(3, 7) if quick else rnd.choice([rnd.randint(3, 8), rnd.randint(6, 14)])
-            if scenario == "var_direct":
+            if scenario == "shared_name":
+                # forced stratum: node and (different) variable share a name, kernels keyed by the shared name
+                spec = shared_spec(rnd)
+                c = {"layer": "D", "model": "liesel", "spec": spec, "order_seed": rnd.randrange(2 ** 30), "scenario": scenario,
+                     "flavour": "shared", "iface": ["liesel", "liesel", "goose"][rnd.randrange(3)], "auto_at_creation": rnd.random() < 0.5}
+            elif scenario == "var_direct":
                 # forced stratum: position key = variable name whose value node has a direct reader; LieselInterface
                 flavour, iface, nitems = "vars", ("liesel", rnd.random() < 0.5), max(nitems, 5)
-            spec = c01.gen_spec(rnd, nitems, flavour)
-            c = {"layer": "D", "model": "liesel", "spec": spec, "order_seed": rnd.randrange(2 ** 30),
-                 "scenario": scenario, "flavour": flavour, "iface": iface[0], "auto_at_creation": iface[1]}
+            if scenario != "shared_name":
+                spec = c01.gen_spec(rnd, nitems, flavour)
+                c = {"layer": "D", "model": "liesel", "spec": spec, "order_seed": rnd.randrange(2 ** 30),
+                     "scenario": scenario, "flavour": flavour, "iface": iface[0], "auto_at_creation": iface[1]}
         try:
             R = make_real(c)
         except c01.GraphAnomaly:
@@ -482,6 +610,56 @@ def make_b_case(rnd, scenario, nk=None, T=3):
     return run_d_case(c)
 
 
+def resalt(spec, rnd):
+    """the same model under the same node names with other node functions (e.g. another link function)"""
+    sp = json.loads(json.dumps(spec))
+    for it in sp["items"]:
+        for d in (it, it.get("dist") or {}):
+            if d.get("fs") and d["fs"][0] == "aff":
+                d["fs"][1] = (d["fs"][1] + rnd.randint(1, 500)) % 1000
+                d["fs"][2] = [(x % 9) + 1 for x in d["fs"][2]]
+    return sp
+
+
+def make_bl_case(rnd, scenario, T=3):
+    """builder stratum on a real integer Liesel model; scenario 'set_model_twice': set_model(old) ... add_kernel ...
+    set_model(new) ... add_kernel ... build(); 'set_model_late': all kernels added before any set_model"""
+    for _try in range(200):
+        spec = c01.gen_spec(rnd, rnd.randint(4, 7), rnd.choice(["plain", "mixed", "vars"]))
+        c = {"layer": "D", "model": "liesel", "via": "builder", "spec": spec, "order_seed": rnd.randrange(2 ** 30),
+             "scenario": "builder_" + scenario, "flavour": "liesel", "iface": rnd.choice(["liesel", "goose"]),
+             "auto_at_creation": rnd.random() < 0.6}
+        try:
+            R = make_real(c)
+        except c01.GraphAnomaly:
+            continue
+        except Exception as ex:
+            if type(ex).__name__ in ("NetworkXUnfeasible", "NetworkXError"):
+                continue
+            raise
+        settable = [k for k in range(len(R.order)) if R.kinds[k] == "V"]
+        cached = [k for k in range(len(R.order)) if R.kinds[k] == "C" and not R.order[k].startswith("_model")]
+        if len(settable) < 2 or not cached:
+            continue
+        rnd.shuffle(settable)
+        nk = min(rnd.randint(2, 3), len(settable))
+        kernels = []
+        for j in range(nk):
+            args = [settable[j], settable[(j - 1) % nk], rnd.choice(cached)]
+            kernels.append({"kind": "gibbs", "keys": [[settable[j], "node"]],
+                            "prop_fs": [["aff", rnd.randint(1, 999), [rnd.randint(2, 9) for _ in args]]], "prop_args": [args]})
+        c.update(order=list(R.order), kernels=kernels, idents=[""] * nk, T=T, chains=rnd.choice([1, 2]), seed=rnd.randrange(1000),
+                 spec_old=resalt(spec, rnd))
+        adds = [f"add:{j}" for j in range(nk)]
+        if scenario == "set_model_twice":
+            cut = rnd.randint(1, nk - 1) if nk > 1 else 1
+            c["history"] = ["set:old"] + adds[:cut] + ["set:new"] + adds[cut:]
+        else:
+            c["history"] = adds + ["set:old", "set:new"]
+        return run_d_case(c)
+    raise RuntimeError("could not generate a buildable description")
+
+
 CORPUS_D = [
     # a -> c -> lp, b -> lp; MH on a (accept, reject), Gibbs on b reading a and c
     {"layer": "D", "model": "liesel", "scenario": "corpus", "flavour": "corpus", "order_seed": 0,
@@ -529,6 +707,15 @@ CORPUS_D = [
                          {"kind": "gibbs", "keys": [["n4", "node"]], "prop_fs": [["aff", 5, [1, 1]]], "prop_args": [["n1", "v3_log_prob"]]}],
      "iters": [{"modes": ["accept", "accept"], "codes": [0, 0], "epoch": 0}, {"modes": ["reject", "accept"], "codes": [0, 0], "epoch": 1},
                {"modes": ["accept", "accept"], "codes": [0, 0], "epoch": 2}]},
+    # node "b" (value node of Var beta) and a different Var "b"; node "x" and Var "x": kernels keyed "b" and "x" own the NODES
+    # (seeded change C09-7: update_state resolves variable names first, extract_position node names first)
+    {"layer": "D", "model": "liesel", "scenario": "corpus", "flavour": "shared", "order_seed": 4,
+     "iface": "liesel", "auto_at_creation": True,
+     "spec": {"custom": "shared", "items": [], "vals": [1, 2, 3, 4, 5], "fs": [["aff", 3, [2, 3, 5, 7]], ["aff", 1, [4, 9]]]},
+     "kernels_by_name": [{"kind": "mh", "keys": [["b", "name:b"]], "prop_fs": [["aff", 11, [3, 2]]], "prop_args": [["b", "x"]]},
+                         {"kind": "gibbs", "keys": [["x", "name:x"]], "prop_fs": [["aff", 5, [1, 1]]], "prop_args": [["b", "c"]]}],
+     "iters": [{"modes": ["accept", "accept"], "codes": [0, 0], "epoch": 0}, {"modes": ["reject", "accept"], "codes": [0, 0], "epoch": 1},
+               {"modes": ["accept", "accept"], "codes": [0, 0], "epoch": 0}]},
     # strong Var with a distribution whose parameter is another Var: keys by var name; three kernels
     {"layer": "D", "model": "liesel", "scenario": "corpus", "flavour": "corpus", "order_seed": 1,
      "iface": "goose", "auto_at_creation": False,
@@ -602,6 +789,14 @@ def oracle_d(c):
             got = it["steps"][0]["vals"]
             if got != sim:
                 ids = c.get("idents")
+                if c.get("history"):
+                    bad = [k for k in range(n) if got[k] != sim[k]]
+                    ref = pg.scratch(got)
+                    stale = [names[k] for k in range(n) if ref[k] != got[k]]
+                    return (f"iteration {t}: EngineBuilder history {c['history']} (old / new = two models under the same node names); "
+                            f"through the model configured at build time the iteration gives {dict((names[k], sim[k]) for k in bad)}, the "
+                            f"engine stored {dict((names[k], got[k]) for k in bad)}"
+                            + (f"; stored derived nodes {stale} differ from their recomputation by the configured model" if stale else ""))
                 return (f"iteration {t}: kernels added to the EngineBuilder in the order {ids} (blocks "
                         f"{[[names[k] for k, _ in kern['keys']] for kern in c['kernels']]}); from the state {dict(zip(names, cur))} the "
                         f"configured order gives {dict(zip(names, sim))}, the engine stored {dict(zip(names, got))}")
@@ -745,6 +940,10 @@ def generate(ctx):
           ["custom_unsorted", "custom_first", "reused", "default"] * 6
     for j, sc in enumerate(bsc):
         cases.append(make_b_case(rnd, sc, nk=(2 + j % 3)))
+    # ... and EngineBuilder histories in which set_model is called twice (a model under the same names replaced before
+    # build()): every kernel must act through the model configured at build time
+    for sc in (["set_model_twice", "set_model_twice", "set_model_late"] if ctx.quick else ["set_model_twice", "set_model_twice", "set_model_late"] * 4):
+        cases.append(make_bl_case(rnd, sc))
     from . import c09_float
     fcases = c09_float.generate(ctx, rnd)
     cases += fcases
@@ -900,7 +1099,8 @@ def replay(rp) -> int:
         from . import c09_float
         return c09_float.replay(c)
     cc = {k: c[k] for k in ("layer", "model", "spec", "scenario", "flavour", "order", "order_seed", "kernels", "iters", "seed", "trace",
-                                  "via", "idents", "T", "chains", "first_order", "iface", "auto_at_creation") if k in c}
+                                  "via", "idents", "T", "chains", "first_order", "iface", "auto_at_creation",
+                                  "history", "spec_old") if k in c}
     try:
         cc = run_d_case(cc)
     except Exception as ex:
